@@ -77,16 +77,17 @@ func (p PerfectPolicy) Stream(string, string, uint64, uint64, time.Duration) Str
 
 // Network is the shared medium.
 type Network struct {
-	mu       sync.Mutex
-	seed     uint64
-	start    time.Time
-	eps      map[string]*Endpoint
-	policy   Policy
-	counters map[string]uint64
-	blocked  map[string]bool // "a|b" directed
-	events   []Event
-	record   bool
-	connSeq  int
+	mu         sync.Mutex
+	seed       uint64
+	start      time.Time
+	eps        map[string]*Endpoint
+	policy     Policy
+	counters   map[string]uint64
+	blocked    map[string]bool // "a|b" directed
+	blockedPkt map[string]bool
+	events     []Event
+	record     bool
+	connSeq    int
 	// OnEvent, when set, is called (outside the lock) for every event.
 	OnEvent func(Event)
 	// Mangle, when set, may rewrite a packet in flight (after it was tapped as
@@ -97,7 +98,7 @@ type Network struct {
 // New creates a network. Must be called inside the bubble.
 func New(seed uint64) *Network {
 	return &Network{seed: seed, start: time.Now(), eps: map[string]*Endpoint{}, policy: PerfectPolicy{Latency: 200 * time.Microsecond},
-		counters: map[string]uint64{}, blocked: map[string]bool{}, record: true}
+		counters: map[string]uint64{}, blocked: map[string]bool{}, blockedPkt: map[string]bool{}, record: true}
 }
 
 func (n *Network) SetPolicy(p Policy) { n.mu.Lock(); n.policy = p; n.mu.Unlock() }
@@ -113,6 +114,17 @@ func (n *Network) Block(a, b string, on bool) {
 		n.blocked[a+"|"+b] = true
 	} else {
 		delete(n.blocked, a+"|"+b)
+	}
+	n.mu.Unlock()
+}
+
+// BlockPackets drops every packet from a to b while set; streams are unaffected.
+func (n *Network) BlockPackets(a, b string, on bool) {
+	n.mu.Lock()
+	if on {
+		n.blockedPkt[a+"|"+b] = true
+	} else {
+		delete(n.blockedPkt, a+"|"+b)
 	}
 	n.mu.Unlock()
 }
@@ -307,7 +319,7 @@ func (n *Network) sendPacket(src, dst string, b []byte) {
 	cnt, h := n.linkHash("p", src, dst)
 	n.mu.Lock()
 	pol := n.policy
-	blocked := n.blocked[src+"|"+dst]
+	blocked := n.blocked[src+"|"+dst] || n.blockedPkt[src+"|"+dst]
 	n.mu.Unlock()
 	v := pol.Packet(src, dst, cnt, h, len(b), time.Since(n.start))
 	if blocked || v.Drop {
